@@ -200,6 +200,37 @@ int __wrap_pthread_mutex_unlock(pthread_mutex_t *m) {
     return rc;
 }
 
+#ifdef XSIM_FLAVOUR_tsan
+// ThreadSanitizer build: XCM's __atomic builtins compile into calls of the detector's entry points. Scheduling decisions before
+// after each load makes the window between a relaxed load and the matching store visible to the seeded scheduler.
+#define TSAN_ATOMIC_WRAP(BITS, T)                                                                              \
+    T __real___tsan_atomic##BITS##_load(const volatile T *a, int mo);                                          \
+    void __real___tsan_atomic##BITS##_store(volatile T *a, T v, int mo);                                       \
+    T __wrap___tsan_atomic##BITS##_load(const volatile T *a, int mo) {                                         \
+        T v = __real___tsan_atomic##BITS##_load(a, mo);                                                        \
+        if (SIM && (cur() && cur()->api_depth > 0)) { G->count("probe.atomic_load"); yield_point("atomic_load"); }                \
+        return v;                                                                                              \
+    }                                                                                                          \
+    void __wrap___tsan_atomic##BITS##_store(volatile T *a, T v, int mo) {                                      \
+        /* no scheduling decision here: stores happen on the cold path of once-per-process caches only, and a run must not */ \
+        /* depend on what earlier runs of the same worker process left cached (replay determinism)                         */ \
+        __real___tsan_atomic##BITS##_store(a, v, mo);                                                          \
+    }
+TSAN_ATOMIC_WRAP(8, unsigned char)
+TSAN_ATOMIC_WRAP(32, int)
+TSAN_ATOMIC_WRAP(64, long)
+long __real___tsan_atomic64_fetch_add(volatile long *a, long v, int mo);
+long __wrap___tsan_atomic64_fetch_add(volatile long *a, long v, int mo) {
+    if (SIM && (cur() && cur()->api_depth > 0)) yield_point("atomic_rmw");
+    return __real___tsan_atomic64_fetch_add(a, v, mo);
+}
+int __real___tsan_atomic32_fetch_add(volatile int *a, int v, int mo);
+int __wrap___tsan_atomic32_fetch_add(volatile int *a, int v, int mo) {
+    if (SIM && (cur() && cur()->api_depth > 0)) yield_point("atomic_rmw");
+    return __real___tsan_atomic32_fetch_add(a, v, mo);
+}
+#endif
+
 // ---- allocation accounting (XCM objects only: the harness allocates through operator new)
 static void track_add(void *p, size_t n) {
     if (!p || !SIM || !K || !K->track_allocs) return;
